@@ -3,6 +3,7 @@ use crate::core::{Local, Run};
 use crate::linsem::*;
 use crate::props::c01::{Case, drop_unreferenced, family_a, family_a_size, family_b, family_b_trees, family_c, family_c_size};
 use indexmap::IndexMap;
+use rooc::model_transformer::Exp;
 use rooc::{LinearModel, LinearizationError, Linearizer, RoocParser};
 use serde_json::json;
 
@@ -117,11 +118,39 @@ fn check_case(case: &Case, l: &mut Local) {
     }
 }
 
+fn walk_numbers(e: &Exp, f: &mut dyn FnMut(f64)) {
+    match e {
+        Exp::Number(n) => f(*n),
+        Exp::Variable(_) => {}
+        Exp::Abs(a) | Exp::Not(a) | Exp::UnOp(_, a) => walk_numbers(a, f),
+        Exp::Min(v) | Exp::Max(v) | Exp::And(v) | Exp::Or(v) => v.iter().for_each(|x| walk_numbers(x, f)),
+        Exp::Xor(a, b) | Exp::Implies(a, b) | Exp::Iff(a, b) | Exp::BinOp(_, a, b) => {
+            walk_numbers(a, f);
+            walk_numbers(b, f);
+        }
+    }
+}
+
 /// MissingFiniteBounds: the list names exactly the variables of the offending expression whose derived bound is not finite
 fn missing_bounds_contract(m: &SrcModel, e: &LinearizationError, l: &mut Local, sig: &str) {
     let LinearizationError::MissingFiniteBounds { expression, variables, lower, upper, .. } = e else {
         let kind = format!("{:?}", e);
-        l.count(&format!("rejected:{}", kind.split(|c: char| c == '(' || c == ' ' || c == '{').next().unwrap_or("")));
+        let kind = kind.split(|c: char| c == '(' || c == ' ' || c == '{').next().unwrap_or("").to_string();
+        l.count(&format!("rejected:{kind}"));
+        // a model whose constants are all finite can only lack a bound: that must be the missing-bounds error
+        // naming the variables, never the non-finite-constant error (which names none)
+        if matches!(e, LinearizationError::NonFiniteConstant(_)) {
+            let mut finite = true;
+            let mut visit = |x: &Exp| walk_numbers(x, &mut |n| finite &= n.is_finite());
+            for c in &m.cons {
+                visit(&c.lhs);
+                visit(&c.rhs);
+            }
+            visit(&m.obj);
+            if finite {
+                l.violation(format!("non-finite-constant-error-for-finite-source:{sig}"), format!("every constant of the source is finite, yet compilation fails with {e} instead of the missing-bounds error naming the unbounded variables"), json!({"model": m.show(), "error": e.to_string()}));
+            }
+        }
         return;
     };
     l.count("rejected:MissingFiniteBounds");
@@ -252,12 +281,12 @@ fn check_text(i: u64, l: &mut Local) {
 pub fn run(mut run: Run) -> ! {
     crate::core::silence_panics();
     let quick = run.quick();
-    let depth = if quick { 1 } else { 2 };
+    let depth = if quick { 2 } else { 3 };
     run.rule = format!("every linear model compiled from the C01 families (A: cores x context chains depth {depth} x relations x constants x declaration forms; B: logic trees x comparison forms; C: bound feeders x consumers) is checked against the structural invariants (sorted duplicate-free variables = domain keys, every source variable present, one coefficient per variable in every row and the objective, finite numbers, unique row names, $-prefixed auxiliaries, no constant above 1e7), every missing-bounds rejection against its contract (non-empty list, exactly the unbounded variables of the offending expression per the hooked bounds analysis), plus 22 adversarial texts (duplicate and colliding row names, user variables named like auxiliaries, unused declarations, vanishing coefficients, infinite constants, infinite bounds under exact lowerings, empty aggregations); distinct = model text");
     run.assume("derived bounds read through the verif_hooks view of the bounds analysis on the normalised constraints, as the linearizer computes them");
-    let sa = family_a_size(depth, quick);
-    run.family("A-core-in-context", sa, move |i, l| check_case(&family_a(i, depth, quick), l));
-    let trees = std::sync::Arc::new(family_b_trees(if quick { 1 } else { 2 }));
+    let sa = family_a_size(depth, false);
+    run.family("A-core-in-context", sa, move |i, l| check_case(&family_a(i, depth, false), l));
+    let trees = std::sync::Arc::new(family_b_trees(2));
     let t2 = trees.clone();
     run.family("B-logic-assertions", trees.len() as u64 * 31, move |i, l| check_case(&family_b(&t2, i), l));
     run.family("C-bound-feeders", family_c_size(), |i, l| check_case(&family_c(i), l));
